@@ -117,6 +117,13 @@ CHECKS["C12"] = dict(
     note="Trusted: the harness's ClientHello builder/reader, rustls as the TLS stack behind the peek. The QUIC clause is not run.",
 )
 
+CHECKS["C11"] = dict(
+    level="exploration",
+    text="Seeded search over histories of echo requests from several clients (colliding identifiers, all sizes, segmented records), replies and ICMP/ICMPv6 errors built around matching and non-matching requests, unrelated and malformed packets, and time advances around the request time-out, against the real ICMP forwarder running inside Core::listen() on simulated raw sockets; a waiter-table reference model, an independent RFC 1071 verifier and 7.3/7.4 codecs written from PROTOCOL.md decide.",
+    design="DESIGN.md section 8 (C11)",
+    note="Trusted: the harness's packet builders and the reference checksum. ICMPv6 checksums are the kernel's and not checked. The C glue (socket filters, interface binding) is not run.",
+)
+
 NOT_YET = {
 }
 
